@@ -251,8 +251,23 @@ func runC17(c *Ctx) {
 		}
 	}
 	c.R.Check(nSend >= 5, r7, "client", "peer sends of the invocation goroutines enumerated", "-", fmt.Sprintf("found %d", nSend))
-	c.HasNot(r7, "transport.(*websocketPeer).sendHandler$1", "the ping handler (run by the receive goroutine) never blocks on the send goroutine", `^send:\^pongs<-`)
-	c.Has(r7, "transport.(*websocketPeer).sendHandler$1", "ping handed to the send goroutine without waiting", `^select\{send:\^pongs<-%m;default\}$`, 1)
+	// the control-frame handlers a send loop installs on the connection run on the receive goroutine: they hand a ping
+	// over to the send loop without waiting for it (a stalled or stopped send loop must not stop the receive loop)
+	nPing := 0
+	for _, fn := range c.P.FuncsIn("transport") {
+		name := ir.ShortName(fn)
+		if fn.Parent() == nil || !strings.HasPrefix(name, "transport.(*websocketPeer).sendHandler") {
+			continue
+		}
+		for _, in := range ir.Instrs(fn) {
+			if _, ok := in.(*ssa.Send); ok {
+				c.R.Bad(r7, name, "a control-frame handler (run by the receive goroutine) never blocks on the send goroutine", c.pos(in),
+					"unconditional send "+ir.InstrDesc(in)+": with the send loop stalled or stopped the second control frame blocks the receive loop for ever, GOODBYE is never seen and Close hangs")
+			}
+		}
+		nPing += len(matches(fn, `^select\{send:\^\w+<-%\w+;default\}$`))
+	}
+	c.R.Check(nPing >= 2, r7, "transport.(*websocketPeer).sendHandler*", "pings handed to the send goroutine without waiting (both send loops)", "-", fmt.Sprintf("found %d non-blocking hand-overs, 2 confirmed by reading", nPing))
 	c.R.Floor(r7, 6)
 
 	const r9 = "C17.R9 an API call never blocks on the transport alone"
